@@ -322,3 +322,56 @@ func (e *Env) ReachableItems() []*gkvlite.Item {
 	}
 	return res
 }
+
+// ShapeCheck is the public-API-only tree oracle: the (key, priority, depth)
+// sequence of a full VisitItemsAscendEx must encode a well-formed binary
+// tree in heap order whose depths are the canonical ones.
+func (e *Env) ShapeCheck(name string) {
+	if e.Failed() {
+		return
+	}
+	c, m := e.coll(name)
+	if c == nil {
+		return
+	}
+	var seq []TreeItem
+	var err error
+	e.guard("VisitItemsAscendEx", func() {
+		e.tag("VisitAsc(k)")
+		err = c.VisitItemsAscendEx(belowAll(m), false, func(i *gkvlite.Item, d uint64) bool {
+			seq = append(seq, TreeItem{Key: append([]byte{}, i.Key...), Prio: i.Priority, Depth: int(d)})
+			return true
+		})
+		e.tag("")
+	})
+	if e.Failed() {
+		return
+	}
+	if err != nil {
+		e.Failf("shape/visit-error", "VisitItemsAscendEx: %v", err)
+		return
+	}
+	want := m.Sorted()
+	if len(seq) != len(want) {
+		e.Failf("C13/visible-tree/contents", "full visit delivered %d items, model has %d", len(seq), len(want))
+		return
+	}
+	for i := range seq {
+		if !bytes.Equal(seq[i].Key, want[i].Key) {
+			e.Failf("C13/visible-tree/search-order", "position %d: key %s, sorted model has %s", i, kvString(seq[i].Key), kvString(want[i].Key))
+			return
+		}
+	}
+	var canon map[string]int
+	if !m.HeapOff {
+		if d, ok := m.Depths(); ok {
+			canon = d
+			e.Stats["shape.canonical-depths-checked"] += int64(len(seq))
+		}
+	}
+	if s := CheckShape(seq, !m.HeapOff, canon); s != "" {
+		e.Failf("C13/visible-tree/"+classify(s), "%s", s)
+		return
+	}
+	e.Stats["shape.checks"]++
+}
